@@ -42,6 +42,17 @@ fn ops_of(events: &[crate::sim::net::Event], party: usize) -> usize {
 }
 
 pub fn test_case(c: &Case) -> Result<CaseInfo, Fail> {
+    // every case runs twice: without any tracing subscriber and with one that enables every span and
+    // event (as under verbose logging, where the field expressions of spans and events are evaluated)
+    let plain = test_case_inner(c)?;
+    crate::sim::exec::VERBOSE_TRACING.with(|v| v.set(true));
+    let verbose = test_case_inner(c);
+    crate::sim::exec::VERBOSE_TRACING.with(|v| v.set(false));
+    verbose.map_err(|f| Fail::new(format!("{}|verbose-tracing", f.signature), format!("with every tracing span and event enabled: {}", f.msg)))?;
+    Ok(CaseInfo { extra_runs: 1, ..plain })
+}
+
+fn test_case_inner(c: &Case) -> Result<CaseInfo, Fail> {
     let cfg = ExecCfg { record_probes: false, step_budget: 2_000_000 };
     let mut classes = vec![];
     let desc;
@@ -212,7 +223,7 @@ pub fn cases(tier: Tier, seed: u64) -> Vec<Case> {
 
 pub fn run(tier: Tier, seed: u64) -> i32 {
     let ctx = Ctx::new("C18", tier, seed, "exploration");
-    ctx.set_rule("systematic enumeration, n in {2,3}, every evaluator choice: one argument invalid at a time (p_own, p_eval, p_out element at boundary n, n+1 and far out of range, empty p_out, input length 0/1/3/7 instead of 2) at one party while the others are honest - oracle: that party returns Err with zero channel operation attempts (starts are recorded by the network) and nobody panics; circuits failing validation at all parties - Err with zero attempts; p_out with repeated / unsorted indices - either rejected that way or every party behaves as for the deduplicated set (clear-text result); circuit descriptions that pass validation but whose counters disagree with their instructions (and_ops, misplaced / surplus Input, Input.party / Input.input out of range, input_regs vs instructions, oversized max_reg_count; single and all paired mutations) - no party panics; distinct by hash of the case");
+    ctx.set_rule("systematic enumeration, n in {2,3}, every evaluator choice: one argument invalid at a time (p_own, p_eval, p_out element at boundary n, n+1 and far out of range, empty p_out, input length 0/1/3/7 instead of 2) at one party while the others are honest - oracle: that party returns Err with zero channel operation attempts (starts are recorded by the network) and nobody panics; circuits failing validation at all parties - Err with zero attempts; p_out with repeated / unsorted indices - either rejected that way or every party behaves as for the deduplicated set (clear-text result); circuit descriptions that pass validation but whose counters disagree with their instructions (and_ops, misplaced / surplus Input, Input.party / Input.input out of range, input_regs vs instructions, oversized max_reg_count; single and all paired mutations) - no party panics; every case is executed without a tracing subscriber and under one that enables every span and event; distinct by hash of the case");
     let all = cases(tier, seed);
     ctx.extra("enumerated_cases", json!(all.len()));
     enumerate(&ctx, &all, test_case);
